@@ -94,6 +94,9 @@ static LogAlloc g_logalloc;
 // ------------------------------------------------------------------------------------------------
 // element types: vh::TV (lifetime registry = oracle) + event log
 // ------------------------------------------------------------------------------------------------
+static const uint64_t THROW_MAGIC = 3735928559ull;   // = throw_magic in coq/Holders/HoldersCommon.v
+struct ElThrow {};
+
 struct Src : vh::TV {     // source type of optional's converting assignments
 	Src(uint64_t x) : vh::TV(x) { ev_obj('C', this); }
 	Src(const Src &o) : vh::TV(static_cast<const vh::TV &>(o)) { ev_obj('U', &o); ev_obj('C', this); }
@@ -105,7 +108,8 @@ template<Kind K, int Tag>
 struct El : vh::TV {
 	static constexpr int tag = Tag;
 	El() : vh::TV() { ev_obj('C', this); }
-	El(uint64_t x) : vh::TV(x) { ev_obj('C', this); }
+	// the converting constructor throws on the designated argument (model: throw_magic); the TV base is born and dies again
+	El(uint64_t x) : vh::TV(x) { if(x == THROW_MAGIC) throw ElThrow{}; ev_obj('C', this); }
 	El(const El &o) requires (K != KM) : vh::TV(static_cast<const vh::TV &>(o)) { ev_obj('U', &o); ev_obj('C', this); }
 	El(El &&o) requires (K != KC) : vh::TV(std::move(static_cast<vh::TV &>(o))) { ev_obj('U', &o); ev_obj('C', this); }
 	El &operator=(const El &o) requires (K != KM) { vh::TV::operator=(static_cast<const vh::TV &>(o)); ev_obj('U', this); ev_obj('U', &o); return *this; }
@@ -122,8 +126,11 @@ struct El : vh::TV {
 };
 static std::string show_tv(const vh::TV &t) { char b[40]; snprintf(b, sizeof b, "%llu%s", (ull)t.v, t.moved ? "m" : ""); return b; }
 
-struct RV { uint64_t v; };                       // value type of the reference (std::) holders
-template<int Tag> struct RVt { uint64_t v; };
+// value types of the reference (std::) holders; their converting constructor throws on the same argument as El's
+struct RV { uint64_t v; RV(uint64_t x) : v(x) { if(x == THROW_MAGIC) throw ElThrow{}; } };
+template<int Tag> struct RVt { uint64_t v; RVt(uint64_t x) : v(x) { if(x == THROW_MAGIC) throw ElThrow{}; } };
+// is an element object alive (lifetime registry) at this address?
+static bool alive_at(const void *p) { return vh::g_life.live.count(p) != 0; }
 
 // raw storage for NV holder variables of type H
 template<typename H>
@@ -180,6 +187,7 @@ struct OptRun {
 			if(a.alive[i] != ref[i].has_value()) { vh::oracle("refstd", "optional var %d: liveness differs from the reference", i); continue; }
 			if(!a.alive[i]) continue;
 			H &h = *a.at(i); R &r = *ref[i];
+			if(h.has_value() && !alive_at(h._stor.buffer)) vh::oracle("claims-dead", "optional var %d reports a value but no object is alive in its storage", i);
 			if(h.has_value() != r.has_value() || bool(h) != bool(r))
 				vh::oracle("refstd", "optional var %d: engaged=%d, std::optional engaged=%d", i, (int)h.has_value(), (int)r.has_value());
 			else if(r.has_value() && reinterpret_cast<vh::TV *>(h._stor.buffer)->v != r->v)
@@ -227,8 +235,11 @@ struct OptRun {
 		} else if(c == "newconv") {
 			if(!a.dead(i)) SKIP();
 			uint64_t v = vh::u64(t[2]);
-			new (a.raw(i)) H(v);
-			a.alive[i] = true; ref[i].emplace(R(RV{v}));
+			bool threw = false, rthrew = false;
+			try { new (a.raw(i)) H(v); a.alive[i] = true; } catch(ElThrow &) { threw = true; }
+			try { ref[i].emplace(std::in_place, v); } catch(ElThrow &) { rthrew = true; ref[i].reset(); }
+			if(threw != rthrew) vh::oracle("refstd", "optional(U&&): throws=%d, std::optional throws=%d", (int)threw, (int)rthrew);
+			if(threw) o.res = "throw";
 		} else if(c == "newcopy" || c == "newmove") {
 			int j = ai(t[2]);
 			if(!a.dead(i) || !a.live(j)) SKIP();
@@ -268,8 +279,11 @@ struct OptRun {
 		} else if(c == "emplace") {
 			if(!a.live(i)) SKIP();
 			uint64_t v = vh::u64(t[2]);
-			a.at(i)->emplace(v);
-			ref[i]->emplace(RV{v});
+			bool threw = false, rthrew = false;
+			try { a.at(i)->emplace(v); } catch(ElThrow &) { threw = true; }
+			try { ref[i]->emplace(v); } catch(ElThrow &) { rthrew = true; }   // std: "if the constructor throws, *this does not contain a value"
+			if(threw != rthrew) vh::oracle("refstd", "optional::emplace: throws=%d, std::optional throws=%d", (int)threw, (int)rthrew);
+			if(threw) o.res = "throw";
 		} else if(c == "get" || c == "cget" || c == "arrow" || c == "value") {
 			access(o, i, c.c_str());
 		} else if(c == "has" || c == "bool") {
@@ -312,6 +326,7 @@ struct ExpRun {
 			if(a.alive[i] != ref[i].has_value()) { vh::oracle("refstd", "expected var %d: liveness differs from the reference", i); continue; }
 			if(!a.alive[i]) continue;
 			H &h = *a.at(i); RefExp &r = *ref[i];
+			if(bool(h) && !alive_at(h.stor_)) vh::oracle("claims-dead", "expected var %d reports a value but no object is alive in its storage", i);
 			if(bool(h) != r.ok) vh::oracle("refstd", "expected var %d: has value=%d, reference %d", i, (int)bool(h), (int)r.ok);
 			else if(r.ok && tvp(h)->v != r.val) vh::oracle("refstd", "expected var %d holds %llu, reference %llu", i, (ull)tvp(h)->v, (ull)r.val);
 			else if(!r.ok && (uint64_t)int(h.maybe_error()) != r.err) vh::oracle("refstd", "expected var %d: error %d, reference %llu", i, int(h.maybe_error()), (ull)r.err);
@@ -444,6 +459,7 @@ struct VarRun {
 			if(a.alive[i] != ref[i].has_value()) { vh::oracle("refstd", "variant var %d: liveness differs from the reference", i); continue; }
 			if(!a.alive[i]) continue;
 			H &h = *a.at(i); R &r = *ref[i];
+			if(bool(h) && !alive_at(h.storage_.buffer)) vh::oracle("claims-dead", "variant var %d claims alternative %zu but no object is alive in its storage", i, h.tag_);
 			long tg = h.tag_ == H::invalid_tag ? -1 : (long)h.tag_;
 			if(tg != (long)r.index() - 1 || bool(h) != (r.index() != 0))
 				vh::oracle("refstd", "variant var %d: alternative %ld, std::variant alternative %ld", i, tg, (long)r.index() - 1);
@@ -503,8 +519,16 @@ struct VarRun {
 			if(!a.live(i) || alt < 0 || alt > 2) SKIP();
 			with_alt(alt, [&](auto ic) {
 				using X = El<K, ic.value>;
-				a.at(i)->template emplace<X>(v);
-				ref[i]->template emplace<ic.value + 1>(RVt<ic.value>{v});
+				bool threw = false, rthrew = false;
+				try { a.at(i)->template emplace<X>(v); } catch(ElThrow &) { threw = true; }
+				try { ref[i]->template emplace<ic.value + 1>(v); } catch(ElThrow &) { rthrew = true; }
+				// std::variant is valueless_by_exception now; frg::variant's counterpart of "holds nothing" is the empty
+				// state, so the reference is normalised to monostate: the tag must not claim an alternative
+				// (libstdc++ even keeps the old value for some alternative types, which the standard also allows: "might not
+				// hold a value"; the reference semantics here is the specified effect order destroy-then-construct: empty)
+				if(rthrew || ref[i]->valueless_by_exception()) ref[i]->template emplace<0>();
+				if(threw != rthrew) vh::oracle("refstd", "variant::emplace: throws=%d, std::variant throws=%d", (int)threw, (int)rthrew);
+				if(threw) o.res = "throw";
 			});
 		} else if(c == "get" || c == "cget") {
 			int alt = ai(t[2]);
@@ -577,6 +601,7 @@ struct BoxRun {
 			if(a.alive[i] != ref[i].has_value()) { vh::oracle("refstd", "manual_box var %d: liveness differs from the reference", i); continue; }
 			if(!a.alive[i]) continue;
 			H &h = *a.at(i);
+			if(h.valid() && !alive_at(h._storage.buffer)) vh::oracle("claims-dead", "manual_box var %d reports a value but no object is alive in its storage", i);
 			if(h.valid() != ref[i]->has_value() || bool(h) != ref[i]->has_value())
 				vh::oracle("refstd", "manual_box var %d: valid=%d, reference %d", i, (int)h.valid(), (int)ref[i]->has_value());
 			else if(h.valid() && reinterpret_cast<vh::TV *>(h._storage.buffer)->v != (*ref[i])->v)
@@ -593,7 +618,13 @@ struct BoxRun {
 		} else if(c == "init" || c == "construct_with") {
 			if(!a.live(i)) SKIP();
 			uint64_t v = vh::u64(t[2]);
-			bool ok = guarded(o, [&] { if(c == "init") a.at(i)->initialize(v); else a.at(i)->construct_with([&] { return E(v); }); });
+			bool threw = false;
+			bool ok = guarded(o, [&] { try { if(c == "init") a.at(i)->initialize(v); else a.at(i)->construct_with([&] { return E(v); }); } catch(ElThrow &) { threw = true; } });
+			if(ok && threw) {   // the element's constructor threw: the box must stay empty (std::optional::emplace likewise)
+				o.res = "throw";
+				bool rthrew = false; std::optional<RV> probe; try { probe.emplace(v); } catch(ElThrow &) { rthrew = true; }
+				if(!rthrew || ref[i]->has_value()) vh::oracle("refstd", "manual_box %s threw where the reference does not", c.c_str());
+			} else
 			if(ok) { if(ref[i]->has_value()) vh::oracle("refstd", "manual_box %s on an initialized box did not stop in the assertion hook", c.c_str()); *ref[i] = RV{v}; }
 			else if(!ref[i]->has_value()) vh::oracle("refstd", "manual_box %s on an empty box stopped in the assertion hook", c.c_str());
 		} else if(c == "destruct") {
@@ -751,6 +782,7 @@ static void drive(const vh::Lines &ls, const char *who) {
 
 #include "tuple_part.hpp"
 #include "il_part.hpp"
+#include "throw_part.hpp"
 
 static void body(const vh::Lines &ls) {
 	ev_reset_all();
@@ -767,6 +799,7 @@ static void body(const vh::Lines &ls) {
 	else if(ty == "umem") drive<UmemRun>(ls, "unique_memory");
 	else if(ty == "tup") { if(k == 'M') tuple_case<KM>(ls); else if(k == 'C') tuple_case<KC>(ls); else tuple_case<KF>(ls); }
 	else if(ty == "il") il_case(ls);
+	else if(ty == "thr") thr_case(ls);
 	else printf("badtype\n");
 }
 
